@@ -25,6 +25,70 @@ def layer_limit_of(B, operand, depth=0):
     return out
 
 
+def body_sources(B, F):
+    """calls that consume the request body (into_parts().1): BodyExt::collect or a workspace reader -> [(block, callee)]"""
+    out = []
+    for c in B.calls:
+        if c[1] == mir.POLL or not c[3]["args"]:
+            continue
+        ro = B.origins(c[3]["args"][0])
+        if ro and all(o[0] == "call" and q.ends(o[1], "into_parts") and tuple(o[3][:1]) == ("1",) for o in ro):
+            out.append((c[0], c[2] or c[1]))
+    return out
+
+
+def is_whole_body(B, F, origins):
+    """every origin is the complete body that was read: Collected::to_bytes() of collect(), or the Ok payload of a workspace body reader"""
+    srcs = {b for b, c in body_sources(B, F)}
+    if not origins:
+        return False
+    for o in origins:
+        if o[0] == "call" and q.ends(o[1], "to_bytes"):
+            continue
+        if o[0] == "call" and o[2] in srcs and tuple(o[3]) == ("@Ok", "0") and not q.ends(o[1], "BodyExt::collect"):
+            continue
+        return False
+    return True
+
+
+def reader_is_sound(F, R, helper):
+    """a workspace helper that reads the request body frame by frame: an Err outcome of any frame()/collect() inside it must not reach
+    the helper's Ok result (the length-limit error of the Limited body arrives exactly there)"""
+    fn = F.body_of(helper) or F.fns.get(helper)
+    if fn is None:
+        R.fail("C15.R3", "C15.R3:%s:reader-no-body" % helper, "-", "no MIR for the body reader %s" % helper)
+        return
+    B = mir.Body(fn, F)
+    R.touched(fn["id"])
+    reads = B.calls_named("BodyExt::frame", "BodyExt::collect")
+    okret = [bi for bi, b in enumerate(B.blocks) for s in b["stmts"]
+             if s["k"] == "assign" and s["lhs"]["l"] == 0 and s["rv"]["k"] == "agg" and s["rv"].get("variant") == "Ok"]
+    errs = set()
+    tests = []
+    from lib import paths as P
+    for sb in B.switch_blocks():
+        e = B.cond(sb)
+        if e[0] != "discr":
+            continue
+        tv = P.type_variants(F, B, e[1])
+        if tv not in (["Ok", "Err"], ["Continue", "Break"]):
+            continue
+        org = B.origins(e[1])
+        if not org or not all(o[0] == "call" and q.ends(o[1], "BodyExt::frame", "BodyExt::collect") for o in org):
+            continue
+        tests.append(sb)
+        tt = B.blocks[sb]["term"]
+        listed = {v for v, _ in tt["targets"]}
+        for tg, lab in B.succ(sb):
+            if lab == 1 or (lab == "otherwise" and 1 not in listed):
+                errs.add((sb, tg))
+    bad = [e for e in sorted(errs) if B.path([e[1]], okret) is not None]
+    R.check(bool(reads) and bool(tests) and bool(okret) and not bad, "C15.R3", "C15.R3:%s:reader-propagates-errors" % fn["id"], "%s:%s" % (fn["file"], fn["line"]),
+            "%s: no Err outcome of frame()/collect() reaches its Ok result (%d read site(s), %d test(s))" % (q.base_name(helper), len(reads), len(tests)),
+            "%s: a body error (e.g. the length limit) is swallowed - from the Err edge at line(s) %s the helper still returns Ok with the "
+            "bytes read so far" % (q.base_name(helper), [B.line(e[0]) for e in bad] or "<no test of the read result found>"))
+
+
 def run(F, R, tier):
     R.explanation = (
         "Evaluated constants (100 KiB / 100 MiB), path-restricted provenance of the limit layer chosen in the per-request "
@@ -108,14 +172,28 @@ def run(F, R, tier):
         if not fn:
             continue
         B = mir.Body(fn, F)
-        col = B.calls_named("BodyExt::collect")
-        R.floor("C15.R3", len(col), 1, "body.collect() in the %s" % label)
-        for c in col:
+        # the body source: the call that consumes into_parts().1 - BodyExt::collect, or a workspace helper that reads the frames itself
+        col = []
+        for c in B.calls:
+            if c[1] == mir.POLL or not c[3]["args"]:
+                continue
             ro = B.origins(c[3]["args"][0])
-            okb = ro and all(o[0] == "call" and q.ends(o[1], "into_parts") and tuple(o[3][:1]) == ("1",) for o in ro)
-            R.check(okb, "C15.R3", R.key("C15.R3", fid, "collects-request-body"), q.where(B, c[0]),
-                    "collect() reads the incoming (Limited) request body", "collect receiver origins: %s" % sorted(map(str, ro)))
-        imp, ref, ts = q.outcome_edges(B, q.from_call("BodyExt::collect"), "Ok")
+            if ro and all(o[0] == "call" and q.ends(o[1], "into_parts") and tuple(o[3][:1]) == ("1",) for o in ro):
+                col.append(c)
+        R.floor("C15.R3", len(col), 1, "body.collect() in the %s" % label)
+        src_names = []
+        for c in col:
+            callee = c[2] or c[1]
+            if q.ends(callee, "BodyExt::collect"):
+                src_names.append("BodyExt::collect")
+                R.check(True, "C15.R3", R.key("C15.R3", fid, "collects-request-body"), q.where(B, c[0]), "collect() reads the incoming (Limited) request body")
+            elif callee in F.fns or F.body_of(callee):
+                src_names.append(q.base_name(callee))
+                reader_is_sound(F, R, callee)
+            else:
+                R.fail("C15.R3", R.key("C15.R3", fid, "collects-request-body"), q.where(B, c[0]),
+                       "the request body is consumed by %s, which is neither BodyExt::collect nor an analysable workspace helper" % q.base_name(callee))
+        imp, ref, ts = q.outcome_edges(B, q.from_call(*(src_names or ["BodyExt::collect"])), "Ok")
         if fid == HRS:
             sends = [c[0] for c in B.calls_named("HttpConnectionContext::send_request")]
             p = B.path([0], sends, cut_edges=imp)
